@@ -22,6 +22,11 @@
 (*    pg  stage0.p/a*    a glob (matches p/a)                              *)
 (*    qa  stage0.q/a     qd  stage0.q/d  (a second producer: collisions)   *)
 (*    sa  stage1.s/a     a producer in the consumer's OWN stage            *)
+(*    wa  stage0.w/a     w is the PLACEHOLDER of a looped component (a     *)
+(*                       DoWhile document): the reference names the file a *)
+(*                       of its LATEST iteration (w0 = stage0.0#w/a, w1 =  *)
+(*                       stage0.1#w/a); :loopref / :loopoutput name the    *)
+(*                       file of EVERY iteration and stage nothing         *)
 (* A location is none | file(c) | dir(c) (a directory holding one file `a` *)
 (* with content c) | link(to).  Contents are numbers from one counter      *)
 (* (tick): every write creates a new one, so that "the content the source  *)
@@ -33,7 +38,8 @@
 (* order the code uses (direct references first, then component            *)
 (* references, then updateInputs, then the :copyout references); Mut = a   *)
 (* producer (or the user) changes a source; Write = the consumer's task    *)
-(* writes into its working directory (open(.., "w"): through links);       *)
+(* writes into its working directory (open(.., "w"): through links); Iterate*)
+(* = the loop gets its next iteration (the placeholder moves on);          *)
 (* Restart(restage) = elaunch -r on the instance: new Job / new            *)
 (* JobWorkingDirectory, stage-in only with --restageData.                  *)
 (*                                                                         *)
@@ -70,19 +76,21 @@ CONSTANTS
     WriteTargets,             \* Write(t): subset of {"o", "a", "d/a", "d/o", "l", "p/a", "p/l", "p/m"}
     MaxMut, MaxWrite, MaxRestart, MaxAgain, MaxEvents,
     Restages,                 \* subset of BOOLEAN: values of --restageData explored
+    Iterates,                 \* BOOLEAN: the loop behind the placeholder w may get a second iteration
     FixSkip, FixRestage,      \* the two findings (FALSE = code as found)
     GlobLiteral,              \* TRUE = code as found: a glob is staged literally, i.e. never exists
     Emit                      \* print every state (history + projection) for the conformance driver
 
-Locs == {"in", "da", "ap", "apd", "pa", "pd", "pl", "pm", "pt", "pp", "pg", "qa", "qd", "sa"}
-Methods == {"copy", "link", "ref", "copyout", "extract", "output"}
-PathMethods == {"copy", "link", "ref", "copyout", "extract"}      \* DataReference.pathMethods (loopref / loopoutput: not modelled)
+Locs == {"in", "da", "ap", "apd", "pa", "pd", "pl", "pm", "pt", "pp", "pg", "qa", "qd", "sa", "wa", "w0", "w1"}
+Methods == {"copy", "link", "ref", "copyout", "extract", "output", "loopref", "loopoutput"}
+PathMethods == {"copy", "link", "ref", "copyout", "extract", "loopref", "loopoutput"}      \* DataReference.pathMethods
+Virtual == {"pp", "pg", "wa"}                            \* locations that are no directory entry of their own
 
 Direct(l) == l \in {"in", "da", "ap", "apd"}
 SameStage(l) == l = "sa"
 NaturalKind(l) == IF l \in {"apd", "pd", "qd"} THEN "dir" ELSE "file"
 Cinit(l) == CASE l = "in" -> 1 [] l = "da" -> 2 [] l = "ap" -> 3 [] l = "apd" -> 4 [] l = "pa" -> 5 [] l = "pd" -> 6
-              [] l = "pt" -> 7 [] l = "qa" -> 8 [] l = "qd" -> 9 [] l = "sa" -> 10 [] OTHER -> 0
+              [] l = "pt" -> 7 [] l = "qa" -> 8 [] l = "qd" -> 9 [] l = "sa" -> 10 [] l = "w0" -> 11 [] l = "w1" -> 12 [] OTHER -> 0
 Tick0 == 20
 
 None == [k |-> "none", c |-> 0, to |-> ""]
@@ -91,27 +99,33 @@ Dir(c) == [k |-> "dir", c |-> c, to |-> ""]
 Link(t) == [k |-> "link", c |-> 0, to |-> t]
 Tree == [k |-> "tree", c |-> 0, to |-> ""]            \* pp: the producer's directory (its content is pa, pd, pl, pm, pt)
 Glob == [k |-> "glob", c |-> 0, to |-> ""]
+Holder == [k |-> "placeholder", c |-> 0, to |-> ""]
 
 Ref(m, l) == [m |-> m, l |-> l]
 Valid(r) == /\ (r.m = "extract" => r.l \in {"pt", "pa", "pd"})       \* extracting something that is no archive: pa / pd
+            /\ (r.m \in {"loopref", "loopoutput"} => r.l = "wa")       \* only a placeholder can be aggregated
+            /\ r.l \notin {"w0", "w1"}                                  \* an iteration is never named directly
             /\ (r.l = "pg" => r.m \in {"copy", "link", "ref"})
             /\ (r.m = "output" => r.l \notin {"pp", "pd", "qd", "apd", "pg"})
 
-VARIABLES refs, rep, mig, isrc, src, wd, wdlink, inputs, pc, plan, idx, miss, res, staged, launch, tick,
+VARIABLES refs, rep, mig, isrc, src, niter, wd, wdlink, inputs, pc, plan, idx, miss, res, staged, launch, tick,
           nmut, nwr, nrs, nag, nev, restarted,
           own, gok, bsame, bwd, wtop, clean, dev, hist
-vars == <<refs, rep, mig, isrc, src, wd, wdlink, inputs, pc, plan, idx, miss, res, staged, launch, tick,
+vars == <<refs, rep, mig, isrc, src, niter, wd, wdlink, inputs, pc, plan, idx, miss, res, staged, launch, tick,
           nmut, nwr, nrs, nag, nev, restarted, own, gok, bsame, bwd, wtop, clean, dev, hist>>
 
 -----------------------------------------------------------------------------
 (* names *)
 GlobName == IF GlobLiteral THEN "a*" ELSE "a"
-Name(l) == CASE l \in {"in", "da", "ap", "pa", "qa", "sa"} -> "a"
+Name(l) == CASE l \in {"in", "da", "ap", "pa", "qa", "sa", "wa", "w0", "w1"} -> "a"
              [] l \in {"apd", "pd", "qd"} -> "d"
              [] l = "pl" -> "l" [] l = "pm" -> "m" [] l = "pt" -> "t.tar" [] l = "pp" -> "p" [] l = "pg" -> GlobName
 
 (* what a location finally is, following symbolic links in the sources (os.path.exists / isdir / realpath follow them) *)
-Final(s, l) == IF s[l].k = "link" THEN s[l].to ELSE IF l = "pg" /\ ~GlobLiteral THEN "pa" ELSE l
+Latest == IF niter = 1 THEN "w0" ELSE "w1"                 \* what the placeholder stands for now
+Iters == IF niter = 1 THEN {"w0"} ELSE {"w0", "w1"}
+Final(s, l) == IF s[l].k = "link" THEN s[l].to ELSE IF l = "pg" /\ ~GlobLiteral THEN "pa" ELSE IF l = "wa" THEN Latest ELSE l
+LinkLoc(l) == IF l = "wa" THEN Latest ELSE l                \* a link is made to the resolved path: to the iteration
 Exists(s, l) == s[Final(s, l)].k \in {"file", "dir", "tree"}
 EffKind(s, l) == s[Final(s, l)].k
 
@@ -161,8 +175,8 @@ StageCopy(s, w, l) ==
 StageLink(s, w, l) ==
     LET n == Name(l)
         dst == Top(w, n)
-    IN IF dst.k = "none" THEN R("ok", w \cup {Ent(<<n>>, Link(l))})
-       ELSE IF FixRestage /\ dst = Link(l) THEN R("ok", w)
+    IN IF dst.k = "none" THEN R("ok", w \cup {Ent(<<n>>, Link(LinkLoc(l)))})
+       ELSE IF FixRestage /\ dst = Link(LinkLoc(l)) THEN R("ok", w)
        ELSE R("nostage", w)                                  \* os.symlink: EEXIST
 
 (* tarfile: every member is checked first (a member whose path runs through a link of the working directory that leaves it *)
@@ -178,7 +192,10 @@ StageExtract(s, w, l) ==
 
 (* one call of StageReference *)
 Stage(s, w, r) ==
-    IF ~Exists(s, r.l) THEN R("missing", w)                      \* DataReferenceFilesDoNotExistError
+    \* :loopref: the file of every iteration must exist; :loopoutput: resolve() READS the file of every iteration
+    IF r.m = "loopref" THEN R(IF \A i \in Iters : s[i].k \in {"file", "dir"} THEN "ok" ELSE "missing", w)
+    ELSE IF r.m = "loopoutput" THEN R(IF \A i \in Iters : s[i].k = "file" THEN "ok" ELSE "missing", w)
+    ELSE IF ~Exists(s, r.l) THEN R("missing", w)                 \* DataReferenceFilesDoNotExistError
     ELSE CASE r.m \in {"copy", "copyout"} -> StageCopy(s, w, r.l)
            [] r.m = "link" -> StageLink(s, w, r.l)
            [] r.m = "extract" -> StageExtract(s, w, r.l)
@@ -213,7 +230,8 @@ RefLists ==
 RefLocs(rs) == {rs[i].l : i \in 1..Len(rs)}
 (* the locations whose kind is chosen: the referenced ones and what they stand for *)
 VarLocs(rs) == ((RefLocs(rs) \cup (IF "pl" \in RefLocs(rs) \/ "pg" \in RefLocs(rs) THEN {"pa"} ELSE {})
-                             \cup (IF "pm" \in RefLocs(rs) THEN {"qa"} ELSE {})) \ {"pp", "pl", "pm", "pg"})
+                             \cup (IF "pm" \in RefLocs(rs) THEN {"qa"} ELSE {})
+                             \cup (IF "wa" \in RefLocs(rs) THEN {"w0", "w1"} ELSE {})) \ {"pp", "pl", "pm", "pg", "wa"})
 KindsOf(l) == {NaturalKind(l)} \cup (IF l = "pt" THEN AltKinds \cap {"none"} ELSE AltKinds)
 Mk(l, k) == CASE k = "file" -> File(Cinit(l)) [] k = "dir" -> Dir(Cinit(l)) [] OTHER -> None
 HasP(rs) == "pp" \in RefLocs(rs)
@@ -222,6 +240,7 @@ Src0(rs, sel) ==
         CASE l \in VarLocs(rs) -> Mk(l, sel[l])
           [] l = "pp" -> Tree
           [] l = "pg" -> Glob
+          [] l = "wa" -> Holder
           [] l \in {"pa", "pd"} /\ HasP(rs) -> Mk(l, NaturalKind(l))
           [] l = "qa" /\ HasP(rs) /\ WithLinks -> Mk(l, "file")
           [] l = "pl" /\ (l \in RefLocs(rs) \/ (HasP(rs) /\ WithLinks)) -> Link("pa")
@@ -231,7 +250,7 @@ Src0(rs, sel) ==
 Lab(e, a, b, n) == [e |-> e, a |-> a, b |-> b, n |-> n]
 
 InitWith(rs, rp, mg, s) ==
-    /\ refs = rs /\ rep = rp /\ mig = mg /\ isrc = s /\ src = s
+    /\ refs = rs /\ rep = rp /\ mig = mg /\ isrc = s /\ src = s /\ niter = 1
     /\ wd = {} /\ wdlink = FALSE /\ inputs = {} /\ pc = "idle" /\ plan = <<>> /\ idx = 0 /\ miss = <<>>
     /\ res = "none" /\ staged = FALSE /\ launch = "none" /\ tick = Tick0
     /\ nmut = 0 /\ nwr = 0 /\ nrs = 0 /\ nag = 0 /\ nev = 0 /\ restarted = FALSE
@@ -253,14 +272,14 @@ BeginCore(lab) ==
 Begin ==
     /\ pc = "idle" /\ res = "none"
     /\ BeginCore(Lab("begin", "", "", 0))
-    /\ UNCHANGED <<refs, rep, mig, isrc, src, wd, wdlink, inputs, res, staged, launch, tick, nmut, nwr, nrs, nag, nev, restarted, own, gok, wtop, clean, dev>>
+    /\ UNCHANGED <<refs, rep, mig, isrc, niter, src, wd, wdlink, inputs, res, staged, launch, tick, nmut, nwr, nrs, nag, nev, restarted, own, gok, wtop, clean, dev>>
 
 (* Job.stageIn called again on the same Job object *)
 Again ==
     /\ pc = "idle" /\ res # "none" /\ nag < MaxAgain /\ nev < MaxEvents
     /\ nag' = nag + 1 /\ nev' = nev + 1
     /\ BeginCore(Lab("again", "", "", 0))
-    /\ UNCHANGED <<refs, rep, mig, isrc, src, wd, wdlink, inputs, res, staged, launch, tick, nmut, nwr, nrs, restarted, own, gok, wtop, clean, dev>>
+    /\ UNCHANGED <<refs, rep, mig, isrc, niter, src, wd, wdlink, inputs, res, staged, launch, tick, nmut, nwr, nrs, restarted, own, gok, wtop, clean, dev>>
 
 Abort(r, verdict) ==
     /\ pc' = "idle" /\ res' = r /\ launch' = verdict /\ clean' = (r = "ok")
@@ -300,7 +319,7 @@ Step ==
                       [] OTHER ->       /\ Abort("nostage", "abort") /\ wd' = o.wd
                                         /\ dev' = IF restageHit THEN dev \cup {"restage"} ELSE dev
                                         /\ UNCHANGED <<wdlink, inputs, idx, miss>>
-    /\ UNCHANGED <<refs, rep, mig, isrc, src, plan, staged, tick, nmut, nwr, nrs, nag, nev, restarted, own, gok, bsame, bwd, wtop>>
+    /\ UNCHANGED <<refs, rep, mig, isrc, niter, src, plan, staged, tick, nmut, nwr, nrs, nag, nev, restarted, own, gok, bsame, bwd, wtop>>
 
 End ==
     /\ pc = "staging" /\ idx > Len(plan)
@@ -311,12 +330,12 @@ End ==
             /\ gok' = [v |-> TRUE, wd |-> wd, src |-> src]
        ELSE /\ res' = "missing" /\ launch' = (IF \A j \in 1..Len(miss) : Tolerated(refs[miss[j]]) THEN "yes" ELSE "failed")
             /\ clean' = FALSE /\ UNCHANGED <<staged, gok>>
-    /\ UNCHANGED <<refs, rep, mig, isrc, src, wd, wdlink, inputs, plan, idx, miss, tick, nmut, nwr, nrs, nag, nev, restarted, own, bsame, bwd, wtop, dev>>
+    /\ UNCHANGED <<refs, rep, mig, isrc, niter, src, wd, wdlink, inputs, plan, idx, miss, tick, nmut, nwr, nrs, nag, nev, restarted, own, bsame, bwd, wtop, dev>>
 
 -----------------------------------------------------------------------------
 (* the environment *)
 Mut(l, how) ==
-    /\ pc = "idle" /\ res # "none" /\ nmut < MaxMut /\ nev < MaxEvents
+    /\ pc = "idle" /\ res # "none" /\ nmut < MaxMut /\ nev < MaxEvents /\ l \notin Virtual
     /\ CASE how = "mod" -> src[l].k \in {"file", "dir"}
          [] how = "rm" -> src[l].k \in {"file", "dir"} /\ l # "pt"
          [] how = "mkfile" -> src[l].k = "none"
@@ -328,7 +347,7 @@ Mut(l, how) ==
                                    [] OTHER -> Dir(tick + 1)]
     /\ tick' = tick + 1 /\ nmut' = nmut + 1 /\ nev' = nev + 1 /\ clean' = FALSE /\ bsame' = FALSE
     /\ hist' = Append(hist, Lab("mut", l, how, 0))
-    /\ UNCHANGED <<refs, rep, mig, isrc, wd, wdlink, inputs, pc, plan, idx, miss, res, staged, launch, nwr, nrs, nag, restarted, own, gok, bwd, wtop, dev>>
+    /\ UNCHANGED <<refs, rep, mig, isrc, niter, wd, wdlink, inputs, pc, plan, idx, miss, res, staged, launch, nwr, nrs, nag, restarted, own, gok, bwd, wtop, dev>>
 
 WPath(t) == CASE t = "o" -> <<"o">> [] t = "a" -> <<"a">> [] t = "l" -> <<"l">> [] t = "d/a" -> <<"d", "a">> [] t = "d/o" -> <<"d", "o">>
               [] t = "p/a" -> <<"p", "a">> [] t = "p/l" -> <<"p", "l">> [] t = "p/m" -> <<"p", "m">>
@@ -337,7 +356,7 @@ WPath(t) == CASE t = "o" -> <<"o">> [] t = "a" -> <<"a">> [] t = "l" -> <<"l">> 
 W(ok, w, s, fresh) == [ok |-> ok, wd |-> w, src |-> s, fresh |-> fresh]
 ThroughSrc(l, c) ==      \* writing at source location l (following its own links): an existing file is rewritten, a missing one is made
     LET f == Final(src, l) IN
-    IF src[f].k \in {"file", "none"} /\ f \notin {"pp", "pg"} THEN W(TRUE, wd, [src EXCEPT ![f] = File(c)], FALSE)
+    IF src[f].k \in {"file", "none"} /\ f \notin Virtual THEN W(TRUE, wd, [src EXCEPT ![f] = File(c)], FALSE)
     ELSE W(FALSE, wd, src, FALSE)
 WriteAt(p, c) ==
     IF wdlink THEN (IF p = <<"a">> THEN ThroughSrc("pa", c) ELSE W(FALSE, wd, src, FALSE))
@@ -377,13 +396,14 @@ Write(t) ==
                      IN IF o.fresh /\ ~(q[1] \in names /\ (Len(q) = 1 \/ q[Len(q)] # "o")) THEN own \cup {q} ELSE own
     /\ tick' = tick + 1 /\ nwr' = nwr + 1 /\ nev' = nev + 1 /\ clean' = FALSE /\ bsame' = FALSE
     /\ hist' = Append(hist, Lab("write", t, "", 0))
-    /\ UNCHANGED <<refs, rep, mig, isrc, wdlink, inputs, pc, plan, idx, miss, res, staged, launch, nmut, nrs, nag, restarted, gok, bwd, dev>>
+    /\ UNCHANGED <<refs, rep, mig, isrc, niter, wdlink, inputs, pc, plan, idx, miss, res, staged, launch, nmut, nrs, nag, restarted, gok, bwd, dev>>
 
 (* elaunch -r <stage of c> [--restageData yes]: Experiment.experimentFromInstance makes new Job objects; the new               *)
 (* JobWorkingDirectory regards everything in the directory as input (ignoreExisting is False)                                *)
 PNames == {Name(ch) : ch \in {x \in PChildren : src[x].k # "none"}}
 Restart(restage) ==
     /\ pc = "idle" /\ res # "none" /\ nrs < MaxRestart /\ nev < MaxEvents
+    /\ niter = 1                      \* (the harness does not persist a new iteration; reloading a loop is C05 / C07's subject)
     /\ nrs' = nrs + 1 /\ nev' = nev + 1 /\ restarted' = TRUE
     /\ inputs' = IF wdlink THEN PNames ELSE TopNames(wd)
     /\ IF restage
@@ -393,9 +413,17 @@ Restart(restage) ==
        ELSE /\ staged' = TRUE /\ res' = "skip" /\ launch' = "yes"            \* control.py: comp.specification.isStaged = True
             /\ hist' = Append(hist, Lab("restart", "keep", "", 0))
             /\ UNCHANGED <<pc, plan, idx, miss, bsame, bwd, clean>>
-    /\ UNCHANGED <<refs, rep, mig, isrc, src, wd, wdlink, tick, nmut, nwr, nag, own, gok, wtop, dev>>
+    /\ UNCHANGED <<refs, rep, mig, isrc, niter, src, wd, wdlink, tick, nmut, nwr, nag, own, gok, wtop, dev>>
 
-Next == \/ Begin \/ Again \/ Step \/ End
+(* the loop gets its next iteration: the placeholder w now stands for iteration 1 (WorkflowGraph.instantiate_dowhile_next_iteration) *)
+Iterate ==
+    /\ pc = "idle" /\ res # "none" /\ niter = 1 /\ Iterates /\ "wa" \in RefLocs(refs) /\ nev < MaxEvents
+    /\ niter' = 2 /\ nev' = nev + 1 /\ clean' = FALSE /\ bsame' = FALSE
+    /\ hist' = Append(hist, Lab("iter", "", "", 0))
+    /\ UNCHANGED <<refs, rep, mig, isrc, src, wd, wdlink, inputs, pc, plan, idx, miss, res, staged, launch, tick, nmut, nwr, nrs, nag, restarted,
+                   own, gok, bwd, wtop, dev>>
+
+Next == \/ Begin \/ Again \/ Step \/ End \/ Iterate
         \/ \E l \in MutLocs, how \in MutHows : Mut(l, how)
         \/ \E t \in WriteTargets : Write(t)
         \/ \E b \in Restages : Restart(b)
@@ -432,7 +460,7 @@ StagedIsCurrent ==
         \A n \in {"a", "d", "l", "m", "p", "t.tar"} : StagersOf(n) # {} =>
             LET r == LastStager(n) IN
             CASE r.m \in {"copy", "copyout"} -> CopyOf(src, r.l, <<n>>) \subseteq wd
-              [] r.m = "link" -> Top(wd, n) = Link(r.l)
+              [] r.m = "link" -> Top(wd, n) = Link(LinkLoc(r.l))
               [] r.m = "extract" /\ n = "a" -> Top(wd, "a") = File(src["pt"].c)
               [] OTHER -> At(wd, <<"d", "a">>) = File(src["pt"].c)
 
@@ -496,7 +524,7 @@ CopyoutNeverInput == (pc = "idle" /\ res = "ok" /\ ~mig) =>
 -----------------------------------------------------------------------------
 (* for the conformance driver: the part of the state the real code shows *)
 RelLocs == {l \in Locs : src[l].k # "none" \/ l \in RefLocs(refs) \/ l \in MutLocs}
-Proj == [i0 |-> [l \in Locs \ {"pp", "pg"} |-> isrc[l]], wd |-> wd, src |-> [l \in Locs \ {"pp", "pg"} |-> src[l]], inp |-> inputs, wl |-> wdlink, st |-> staged, res |-> res, launch |-> launch,
+Proj == [i0 |-> [l \in Locs \ Virtual |-> isrc[l]], wd |-> wd, src |-> [l \in Locs \ Virtual |-> src[l]], ni |-> niter, inp |-> inputs, wl |-> wdlink, st |-> staged, res |-> res, launch |-> launch,
          pc |-> pc, dev |-> dev]
 Header == [refs |-> refs, rep |-> rep, mig |-> mig]
 EmitState == Emit => PrintT(ToJson([h |-> hist, hd |-> Header, s |-> Proj]))
